@@ -689,6 +689,17 @@ Proof.
     split; [auto|]. intro c. rewrite H2, H1, map_app, in_app_iff. tauto.
 Qed.
 
+Section LowerP.
+Variable lower : str -> str.
+Notation files_ok := (files_ok lower).
+Notation par_layer := (par_layer lower).
+Notation seq_layer := (seq_layer lower).
+Notation spec_layer := (spec_layer lower).
+Notation layer_ok := (layer_ok lower).
+Notation par_font := (par_font lower).
+Notation seq_font := (seq_font lower).
+Notation spec_font := (spec_font lower).
+
 (** * The whole of [load_impl]: file-name check, then the glyphs *)
 Lemma par_layer_spec : forall sched s ts,
   NoDup (keys_of ts) -> erase_res (snd (par_layer sched s ts)) = spec_layer ts.
@@ -718,26 +729,32 @@ Proof.
 Qed.
 
 (** a layer that loads has pairwise different glif files *)
-Lemma files_ok_nodup : forall ts seen, files_ok seen ts = true ->
-  NoDup (map file_of ts) /\ forall f, In f (map file_of ts) -> ~ In f seen.
+Lemma files_ok_nodup_lower : forall ts seen, files_ok seen ts = true ->
+  NoDup (map (fun t => lower (file_of t)) ts) /\
+  forall f, In f (map (fun t => lower (file_of t)) ts) -> ~ In f seen.
 Proof.
   induction ts as [|t r IH]; intros seen H; cbn [map]; [split; [constructor|intros f []]|].
-  cbn [files_ok] in H. unfold file_of at 1 3. destruct (t_file t) as [f|]; [|discriminate].
-  destruct (existsb (str_eqb f) seen) eqn:E; [discriminate|].
-  destruct (IH (f :: seen) H) as [ND Hn].
-  assert (Hf : ~ In f seen).
-  { intro Hin. assert (existsb (str_eqb f) seen = true) as X; [|congruence].
-    apply existsb_exists. exists f. split; [exact Hin|apply str_eqb_refl]. }
+  cbn [Interleave.files_ok] in H. unfold file_of at 1 3. destruct (t_file t) as [f|]; [|discriminate].
+  destruct (existsb (str_eqb (lower f)) seen) eqn:E; [discriminate|].
+  destruct (IH (lower f :: seen) H) as [ND Hn].
+  assert (Hf : ~ In (lower f) seen).
+  { intro Hin. assert (existsb (str_eqb (lower f)) seen = true) as X; [|congruence].
+    apply existsb_exists. exists (lower f). split; [exact Hin|apply str_eqb_refl]. }
   split.
-  - constructor; [|exact ND]. intro Hin. apply (Hn f Hin). left. reflexivity.
+  - constructor; [|exact ND]. intro Hin. apply (Hn (lower f) Hin). left. reflexivity.
   - intros g [<-|Hin]; [exact Hf|]. intro Hs. apply (Hn g Hin). right. exact Hs.
+Qed.
+Lemma files_ok_nodup : forall ts, files_ok [] ts = true -> NoDup (map file_of ts).
+Proof.
+  intros ts H. destruct (files_ok_nodup_lower ts [] H) as [ND _].
+  rewrite <- (map_map file_of lower) in ND. apply NoDup_map_inv in ND. exact ND.
 Qed.
 Lemma loaded_layer_paths_distinct : forall sched s ts enc,
   (exists m, snd (par_layer sched s ts) = inr m) -> NoDup (map fst (save_tasks enc ts)).
 Proof.
   intros sched s ts enc H. apply par_layer_ok_iff in H. unfold layer_ok in H. apply andb_true_iff in H.
   destruct H as [H _]. unfold save_tasks. rewrite map_map. cbn [fst].
-  apply (files_ok_nodup ts [] H).
+  apply (files_ok_nodup ts H).
 Qed.
 
 (** * The font: layers one after the other *)
@@ -809,6 +826,8 @@ Proof.
     split; [auto|]. intro c. unfold font_reqs. cbn [map concat snd]. rewrite H2, H1, map_app, in_app_iff.
     unfold font_reqs. tauto.
 Qed.
+
+End LowerP.
 
 (** * Saving: writes to pairwise different paths commute *)
 Lemma write_all_spec : forall ws t, ok_tree (write_all ws t) = collectC (map stask_spec ws) t.
